@@ -1019,3 +1019,89 @@ def rule_c17_r6(model: Model) -> RuleResult:
     else:
         r.ok()
     return r
+
+
+def rule_c17_r7(model: Model) -> RuleResult:
+    """C17: a parametrised base's bindings apply to the fields seen up to that base; they are not inherited by the classes below it."""
+    r = RuleResult('C17-R7', "type-variable bindings are read from the namespace of the class that carries them, never through inheritance "
+                             "(a subclass that re-uses or forwards a type variable is not re-bound)", floor=2)
+    m = model.module(CLS)
+    # the attribute that holds the bindings: the key _make_subclass puts into the namespace of a parametrised class
+    mk = model.func(f'{CLS}._make_subclass')
+    keys = set()
+    for c in ast.walk(mk.node):
+        if isinstance(c, ast.Call) and isinstance(c.func, ast.Name) and c.func.id == 'type' and len(c.args) == 3 and isinstance(c.args[2], ast.Dict):
+            for k, v in zip(c.args[2].keys, c.args[2].values):
+                if isinstance(v, ast.Name) and k is not None:
+                    kk = k.value if isinstance(k, ast.Constant) else (m.assign_values.get(k.id).value if isinstance(k, ast.Name)  # type: ignore[union-attr]
+                                                                      and isinstance(m.assign_values.get(k.id), ast.Constant) else None)
+                    # the bound-variables table is the dict built from zip(<parameters>, <arguments>)
+                    defs = [d for d in cfg_of(model, mk).reaching().by_name.get(v.id, []) if d.value is not None]
+                    if kk and any('zip(' in unparse(d.value) for d in defs):
+                        keys.add(kk)
+    if len(keys) != 1:
+        raise AnalysisError(f"{mk.loc()}: attribute holding the type-variable bindings not identified ({sorted(keys)})")
+    key = keys.pop()
+
+    def is_key(e: ast.AST) -> bool:
+        if isinstance(e, ast.Constant):
+            return e.value == key
+        if isinstance(e, ast.Name):
+            v = m.assign_values.get(e.id)
+            return isinstance(v, ast.Constant) and v.value == key
+        return False
+    for f in model.all_functions():
+        if f.module is not m or not isinstance(f.node, ast.FunctionDef):
+            continue
+        for c in ast.walk(f.node):
+            if not isinstance(c, ast.Call) or model.enclosing_function(c) is not f:
+                continue
+            inherited = isinstance(c.func, ast.Name) and c.func.id in ('getattr', 'hasattr') and len(c.args) >= 2 and is_key(c.args[1])
+            own = isinstance(c.func, ast.Attribute) and c.func.attr == 'get' and c.args and is_key(c.args[0]) and (
+                (isinstance(c.func.value, ast.Attribute) and c.func.value.attr == '__dict__') or
+                (isinstance(c.func.value, ast.Call) and isinstance(c.func.value.func, ast.Name) and c.func.value.func.id == 'vars'))
+            if not inherited and not own:
+                continue
+            r.instances += 1
+            r.analysed.add(f.qualname)
+            r.sample({'function': f.qualname, 'read': unparse(c)[:80], 'through inheritance': inherited})
+            if inherited:
+                r.fail(f.qualname, unparse(c)[:80], f.loc(c),
+                       "the bindings of a parametrised base are found again on every class below it and applied a second time: a subclass that "
+                       "re-uses the type variable (class X(G[int], Generic[T]): z: T) gets z: int, and forwarding with swapped variables "
+                       "(class F(Two[U, T])) swaps twice")
+            else:
+                r.ok()
+    return r
+
+
+def rule_c17_r8(model: Model) -> RuleResult:
+    """C17: substitution reaches the arguments of parametrised pane dataclasses used inside field types (Inner[T] in Outer[int])."""
+    r = RuleResult('C17-R8', 'type-variable substitution re-parametrises pane dataclasses that occur in field types (any depth)', floor=1)
+    f = model.func('pane.util.replace_typevars')
+    cfg = cfg_of(model, f)
+    nz = Normalizer(model, f, cfg, param_map=_pm(f))
+    r.analysed.add(f.qualname)
+    r.instances += 1
+    # the attribute a parametrised class keeps its arguments in (same discovery as C17-R7)
+    mk = model.func(f'{CLS}._make_subclass')
+    m = model.module(CLS)
+    keys = set()
+    for c in ast.walk(mk.node):
+        if isinstance(c, ast.Call) and isinstance(c.func, ast.Name) and c.func.id == 'type' and len(c.args) == 3 and isinstance(c.args[2], ast.Dict):
+            for k in c.args[2].keys:
+                if isinstance(k, ast.Constant):
+                    keys.add(k.value)
+                elif isinstance(k, ast.Name) and isinstance(m.assign_values.get(k.id), ast.Constant):
+                    keys.add(m.assign_values[k.id].value)      # type: ignore[union-attr]
+    forms = [nz.expr(n.ast.value, n) for n in cfg.live_nodes() if n.kind == 'return' and n.ast is not None and n.ast.value is not None]
+    hit = [x for x in forms if re.search(r"\[(tuple\()?\(?(GEN|LIST)\(pane\.util\.replace_typevars\(", x) and any(repr(k) in x for k in keys)
+           and ('__origin__' in x)]
+    r.sample({'re-parametrising return': hit[:1]})
+    if hit:
+        r.ok()
+    else:
+        r.fail(f.qualname, 'no branch re-parametrises a parametrised pane dataclass', f.loc(),
+               "a field typed Inner[T] keeps T when Outer[int] is built: Outer[int].from_data({'inner': {'v': 'x'}}) is accepted although v "
+               "must be an int")
+    return r
